@@ -102,3 +102,26 @@ PROPS = {
         "explanation": "invariant by induction over all op sequences; correspondence on full state dumps",
     },
 }
+
+
+# Fragments: bin/props.d/<area>.py may define HARNESSES, PROPS and TEXT (manifest wording) dicts.
+TEXT_FRAGMENTS = {}
+NOT_APPLICABLE_FRAGMENTS = {}
+KNOWN_FINDINGS_FRAGMENTS = []
+
+
+def _load_fragments():
+    import glob
+    import os
+    here = os.path.dirname(os.path.abspath(__file__))
+    for f in sorted(glob.glob(os.path.join(here, "props.d", "*.py"))):
+        ns = {"KERNEL": KERNEL}
+        exec(compile(open(f).read(), f, "exec"), ns)
+        HARNESSES.update(ns.get("HARNESSES", {}))
+        PROPS.update(ns.get("PROPS", {}))
+        TEXT_FRAGMENTS.update(ns.get("TEXT", {}))
+        NOT_APPLICABLE_FRAGMENTS.update(ns.get("NOT_APPLICABLE", {}))
+        KNOWN_FINDINGS_FRAGMENTS.extend(ns.get("KNOWN_FINDINGS", []))
+
+
+_load_fragments()
